@@ -772,8 +772,9 @@ func premQuorum0(c *Ctx, ms map[string]*fsmx.Machine, s *panicSite) (bool, strin
 	// Quorum[index] = … with index ranging over request.Participants
 	okStore := false
 	ssax.Instrs(init, func(in ssa.Instruction) {
-		if mu, ok := in.(*ssa.MapUpdate); ok && strings.HasSuffix(ssax.Path(mu.Map), ".SignatureProposalPayload.Quorum") {
-			if npath(mu.Key) == "i" {
+		if mu, ok := in.(*ssa.MapUpdate); ok {
+			// the invitation quorum, by type (it may be filled through a local before it is attached to the payload)
+			if nm, isNamed := mu.Map.Type().(*types.Named); isNamed && nm.Obj().Name() == "SignatureProposalQuorum" && npath(mu.Key) == "i" {
 				okStore = true
 			}
 		}
